@@ -177,6 +177,44 @@ func ruleLineFraming(w *World, r *Report, rule string) {
 		}
 		r.Check(ok, rule, h+":one-name-per-line", posOf(w, f), "writes one name per line", h+" does not write one name per line (\"%s\\n\")")
 	}
+	// the names travel in the order the local implementation produced them: neither end reorders the list
+	for _, pr := range [][2]string{{"app.handleItems", "globItemsLocal"}, {"app.handleFiles", "globFilesLocal"}, {"globItemsRemote", ""}, {"globFilesRemote", ""}} {
+		f := fn(w.Cmd, pr[0])
+		if f == nil {
+			continue
+		}
+		below := map[*ssa.Function]bool{}
+		if pr[1] != "" {
+			if l := fn(w.Cmd, pr[1]); l != nil {
+				below = moduleReachable(w, []*ssa.Function{l}, nil)
+			}
+		}
+		var scope []*ssa.Function
+		for g := range moduleReachable(w, []*ssa.Function{f}, nil) {
+			if !below[g] {
+				scope = append(scope, g)
+			}
+		}
+		sort.Slice(scope, func(i, j int) bool { return funcName(scope[i]) < funcName(scope[j]) })
+		bad := ""
+		for _, g := range scope {
+			for _, c := range callsIn(g) {
+				sc := c.Common().StaticCallee()
+				if sc == nil || sc.Pkg == nil {
+					continue
+				}
+				switch pth := sc.Pkg.Pkg.Path(); {
+				case pth == "sort" && sc.Signature.Recv() == nil,
+					pth == "slices" && (strings.HasPrefix(sc.Name(), "Sort") || sc.Name() == "Reverse"),
+					(pth == "math/rand" || pth == "math/rand/v2") && sc.Name() == "Shuffle":
+					if bad == "" {
+						bad = pth + "." + sc.Name() + " at " + w.instrPos(c)
+					}
+				}
+			}
+		}
+		r.Check(bad == "", rule, pr[0]+":order-kept", posOf(w, f), fmt.Sprintf("%d functions on this end of the protocol, none reorders the list", len(scope)), pr[0]+" reorders the names ("+bad+"): the list read through the server comes in another order than the one filepath.Glob gives for the directory, so commands visit and print the files in a different order")
+	}
 	for _, cl := range []string{"globItemsRemote", "globFilesRemote"} {
 		f := fn(w.Cmd, cl)
 		if f == nil {
@@ -684,6 +722,46 @@ func ruleLayoutEquality(w *World, r *Report, rule string) {
 			if int64(n) != lens[0] {
 				bads = append(bads, fmt.Sprintf("lists of %d archives are reported equal after comparing %d pairs", lens[0], n))
 			}
+		}
+	}
+	// each pair compared is (element i of one list, element i of the other)
+	listOf := func(v ssa.Value) int {
+		for i := 0; i < 6; i++ {
+			switch t := v.(type) {
+			case *ssa.UnOp:
+				v = t.X
+				continue
+			case *ssa.IndexAddr:
+				v = t.X
+				continue
+			case *ssa.Index:
+				v = t.X
+				continue
+			case *ssa.ChangeType:
+				v = t.X
+				continue
+			case *ssa.Parameter:
+				for k, q := range lf.Params {
+					if q == t {
+						return k
+					}
+				}
+			}
+			break
+		}
+		return -1
+	}
+	for _, c := range callsIn(lf) {
+		if c.Common().StaticCallee() != el || len(c.Common().Args) != 2 {
+			continue
+		}
+		x, y := c.Common().Args[0], c.Common().Args[1]
+		lx, ly := listOf(x), listOf(y)
+		ix, iy := elemIndexOf(x), elemIndexOf(y)
+		if !((lx == 0 && ly == 1) || (lx == 1 && ly == 0)) {
+			bads = append(bads, "the pair compared at "+w.instrPos(c)+" is not one element of each list")
+		} else if ix == nil || ix != iy {
+			bads = append(bads, "the pair compared at "+w.instrPos(c)+" is not taken at the same index of both lists")
 		}
 	}
 	sort.Strings(bads)
